@@ -232,7 +232,22 @@ def resolve_type_vars(
         s = build_type_dict_from_type(context_type, at_class)
     except TypeError:
         s = {}
-    return _resolve_type(parameterized_type, s)  # type: ignore
+    return _resolve_type(_replace_self(parameterized_type, context_type), s)  # type: ignore
+
+
+def _replace_self(t: Any, context_type: Type) -> Any:
+    "`typing.Self` (python 3.11+) in an annotation of a method is the type of the object"
+    import typing
+
+    self_type = getattr(typing, "Self", None)
+    if self_type is None:
+        return t
+    if t is self_type:
+        return context_type
+    t_args = get_args(t)
+    if len(t_args) > 0 and any(a is self_type for a in t_args) and hasattr(t, "copy_with"):
+        return t.copy_with(tuple(context_type if a is self_type else a for a in t_args))
+    return t
 
 
 def get_class_name(t: Type) -> str:
